@@ -1355,7 +1355,8 @@ impl Parser<'_> {
                             Word::Number(n.into(), s)
                         }
                         NumericSubscript::N(Some(SubscriptNumber::Int(i))) => {
-                            Word::Number((i as f64).into(), i.to_string())
+                            // The sign must be spelled so that the text reads as the same number
+                            Word::Number((i as f64).into(), i.to_string().replace('-', "¯"))
                         }
                         NumericSubscript::N(Some(SubscriptNumber::I)) => {
                             Word::Number(Complex::I.into(), "i".into())
